@@ -677,7 +677,15 @@ def gen_family(rng, force=(), forbid=(), n_masters=None, max_glyphs=14, p_sparse
             ax0["map"] = [[400, 20], [550, 80], [700, 170]]
         axes.append(ax0)
         if naxes == 2:
-            axes.append({"name": "Width", "tag": "wdth", "minimum": 75, "default": 100, "maximum": 100})
+            if rng.random() < 0.3:
+                # slant axis (italic angle is derived from it when no master sets one);
+                # same numeric range so that the master placement below stays valid
+                axes.append({"name": "Width", "tag": "slnt", "minimum": 75, "default": 100, "maximum": 100,
+                             "map": [[75, -12], [100, 0]] if False else None})
+                axes[-1].pop("map")
+                axes[-1].update({"minimum": -12, "default": 0, "maximum": 0})
+            else:
+                axes.append({"name": "Width", "tag": "wdth", "minimum": 75, "default": 100, "maximum": 100})
 
         def dloc(user):  # user-space -> design-space for master placement
             out = {}
@@ -689,12 +697,14 @@ def gen_family(rng, force=(), forbid=(), n_masters=None, max_glyphs=14, p_sparse
                 out[ax["name"]] = v
             return out
 
-        locs_user = [{"Weight": 400, "Width": 100}]
+        a2d = axes[1]["default"] if naxes == 2 else 100
+        a2m = axes[1]["minimum"] if naxes == 2 else 75
+        locs_user = [{"Weight": 400, "Width": a2d}]
         if n_masters >= 2:
-            locs_user.append({"Weight": 700, "Width": 100})
+            locs_user.append({"Weight": 700, "Width": a2d})
         if n_masters >= 3:
             if naxes == 2:
-                locs_user.append({"Weight": 400, "Width": 75})
+                locs_user.append({"Weight": 400, "Width": a2m})
             else:
                 locs_user.append({"Weight": 550, "Width": 100})
         locs_user = [{a["name"]: l[a["name"]] for a in axes} for l in locs_user]
@@ -727,15 +737,15 @@ def gen_family(rng, force=(), forbid=(), n_masters=None, max_glyphs=14, p_sparse
         if "alternates" in on and n_masters >= 2 and rng.random() < 0.6:
             alts = [n for n, _, r in roster if r == "alt"]
             if alts:
-                lo = dloc({"Weight": 550, "Width": 100} if naxes == 2 else {"Weight": 550})["Weight"]
-                hi = dloc({"Weight": 700, "Width": 100} if naxes == 2 else {"Weight": 700})["Weight"]
+                lo = dloc({"Weight": 550, "Width": a2d} if naxes == 2 else {"Weight": 550})["Weight"]
+                hi = dloc({"Weight": 700, "Width": a2d} if naxes == 2 else {"Weight": 700})["Weight"]
                 rules.append({"name": "bold_alt", "conditionSets": [[{"name": "Weight", "minimum": lo, "maximum": hi}]],
                               "subs": [[a[:-4], a] for a in alts]})
         for i in range(rng.randint(0, 2)):
             wu = rng.choice([400, 475, 550, 625, 700])
             inst = {"Weight": wu}
             if naxes == 2:
-                inst["Width"] = rng.choice([75, 87.5, 100])
+                inst["Width"] = rng.choice([a2m, (a2m + a2d) / 2, a2d])
             # instance design locations: interpolate the map if any
             instances.append({"styleName": "I%d" % i, "familyName": info["familyName"],
                               "user": inst})
@@ -834,6 +844,8 @@ def _perturb_master(rng, m0, k, on, spec):
                 seen.add((l, r))
                 ded.append([l, r, v])
         kerning = ded
+    if rng.random() < 0.12:
+        glyphs["extra.only_here"] = _simple_glyph(rng, spec, ncontours=1)
     info = _deep(m0["info"])
     info["styleName"] = ["Regular", "Bold", "Condensed"][k] if k < 3 else "M%d" % k
     if "openTypeOS2WeightClass" in info:
@@ -846,6 +858,7 @@ def _perturb_master(rng, m0, k, on, spec):
     for ln, lay in m0["layers"].items():
         if ln.startswith("color") or ln == "public.background":
             layers[ln] = {n: _perturb_glyph(rng, g, k, spec) for n, g in lay.items()}
-    return {"name": "master_%d" % k, "info": info, "glyphs": glyphs, "glyph_order": list(m0["glyph_order"]),
+    return {"name": "master_%d" % k, "info": info, "glyphs": glyphs,
+            "glyph_order": list(m0["glyph_order"]) + [n for n in glyphs if n not in m0["glyphs"]],
             "kerning": kerning, "groups": _deep(m0["groups"]), "features": features, "lib": lib,
             "layers": layers, "data": _deep(m0["data"])}
